@@ -320,4 +320,38 @@ example :
     idAccepts freeHashes Flags.fixed
       { hdr := hdrF, sig := { signer := 6, msg := freeHashes.H1 hdrF }, txs := [tA, tB] } = true := by decide
 
+/-! ### placeholders: the one transaction type whose merkle leaf is not a hash of its content
+
+The leaf of an `SPV`-typed transaction is a field its sender chooses (the first half of its signature field), so a placeholder
+can be made to hash like ANY transaction it displaces: `InjHashes.l` (leaf = hash of content and input keys) is the right
+assumption only for blocks without placeholders. The rule `fullBlockNoSpv` — a block validated by a full node contains none,
+whatever their replacement count — is what closes this; the correspondence suite measures it (flag `nospv`) and offers blocks in
+which a transaction was swapped for a placeholder with the same leaf. -/
+
+/-- with the rule in force no transaction of a block that passes block validation is a placeholder -/
+theorem accepted_block_has_no_placeholder (fl : Flags) (hf : fl.fullBlockNoSpv = true) (bc : BCtx) (u : List Nat) (txs : List Tx)
+    (h : blockValidate fl bc u txs = true) : txs.any (isType .spv) = false := by
+  simp only [blockValidate, hf, Bool.and_eq_true, Bool.true_and, Bool.not_eq_true'] at h
+  exact h.1.1.2
+
+/-- … and for every outcome of `addBlock` other than "invalid" / "generate fails" -/
+theorem added_block_has_no_placeholder (fl : Flags) (hf : fl.fullBlockNoSpv = true) (bc : BCtx) (u : List Nat) (txs : List Tx)
+    (h : addBlock fl bc u txs = .accepted ∨ addBlock fl bc u txs = .supplyPanic) : txs.any (isType .spv) = false := by
+  by_cases hv : blockValidate fl bc u txs = true
+  · exact accepted_block_has_no_placeholder fl hf bc u txs hv
+  · exfalso
+    unfold addBlock at h
+    split at h
+    · rcases h with h | h <;> cases h
+    · simp only [hv, Bool.not_true, Bool.false_eq_true, not_false_eq_true, if_true, Bool.not_false] at h
+      rcases h with h | h <;> cases h
+
+/-- without the rule (the pinned behaviour, and a tree that exempts placeholders with replacement count 1) a block holding a
+    value-less placeholder passes block validation: concrete witness on the otherwise repaired vector -/
+theorem placeholder_witness :
+    let p : Tx := { typ := .spv, sigOk := false, signer := 99, inputs := [], outputs := [] }
+    let bc : BCtx := { id := 3, hsig := true, hdr := true, atrOk := true, rootMatches := true, cx := { vau := true, ssr := 0 } }
+    blockValidate { Flags.fixed with fullBlockNoSpv := false } bc [] [p] = true
+    ∧ blockValidate Flags.fixed bc [] [p] = false := by decide
+
 end Saito.C06
